@@ -403,7 +403,35 @@ def rule_r5(ctx):
     c03.rule_error_route(ctx, rid="C06.R5")
 
 
-RULES = [rule_r1, rule_r2, rule_r3, rule_r4, rule_r5]
+def rule_r7(ctx):
+    """No pattern applied to client bytes has exponential ambiguity (no input can make a gate 'hang')."""
+    from ..model import RePat
+    from ..relang import has_exponential_ambiguity
+    rid = "C06.R7"
+    ctx.r.rule(rid, "no compiled pattern of the package has exponential degree of ambiguity (SCC test on the squared position automaton)")
+    n = 0
+    for modname, m in ctx.p.modules.items():
+        for name, expr in m.globals.items():
+            try:
+                v = ctx.p.fold(expr, m)
+            except Exception:
+                continue
+            if not isinstance(v, RePat):
+                continue
+            n += 1
+            try:
+                bad, info = has_exponential_ambiguity(v.pattern, v.flags)
+            except AnalysisError as e:
+                ctx.r.error(rid, "%s.%s: %s" % (modname, name, e))
+                continue
+            if bad:
+                ctx.r.violation(rid, "eda::%s.%s" % (modname, name), "pattern %s.%s has exponential ambiguity (two distinct loops on one position reading the same word): a crafted input makes the match take exponential time" % (modname, name), m.path, info)
+            else:
+                ctx.r.ok(rid, "%s.%s: %d positions, no EDA" % (modname, name, info["positions"]), m.path)
+    ctx.r.floor(rid, n, 7, "compiled patterns")
+
+
+RULES = [rule_r1, rule_r2, rule_r3, rule_r4, rule_r5, rule_r7]
 
 from ..selftest import M, T, V  # noqa: E402
 
@@ -423,6 +451,7 @@ selftest = [
     M("wrong-code", "utilities.py", "class RequestEntityTooLarge(BadRequest):\n    code = 413", "class RequestEntityTooLarge(BadRequest):\n    code = 400", "R4"),
     M("te-as-400", "parser.py", "self.error = ServerNotImplemented(e.args[0])", "self.error = BadRequest(e.args[0])", "R4"),
     M("body-total-not-accumulated", "parser.py", "            self.body_bytes_received += consumed\n", "            self.body_bytes_received = consumed\n", "R3"),
+    M("field-content-nested-plus", "rfc7230.py", 'FIELD_CONTENT = FIELD_VCHAR + "+(?:[ \\t]+" + FIELD_VCHAR + "+)*"', 'FIELD_CONTENT = "(?:" + FIELD_VCHAR + "+[ \\t]*)+"', None),
     T("catch-together", "parser.py", "        except ValueError:\n            raise ParsingError(\"Bad URI\")", "        except (ValueError, TypeError):\n            raise ParsingError(\"Bad URI\")"),
     T("limit-swapped", "parser.py", "if self.header_bytes_received >= max_header:", "if max_header <= self.header_bytes_received:"),
     T("limit-not-less", "parser.py", "if self.content_length >= max_body:", "if not self.content_length < max_body:"),
